@@ -308,3 +308,14 @@ def gen_space(repo, outdir, opts=None):
     with open(os.path.join(outdir, 'space_c.h'), 'w') as f:
         f.write('\n'.join(c) + '\n')
     return allnames
+
+
+def gen_option_enum(repo, outdir):
+    """option_enum.cpp exactly as the build generates it (CMake py_gen: scripts/make_option_enum.py OUT option.h option_enum.cpp.in)."""
+    import subprocess
+    out = os.path.join(outdir, 'option_enum.cpp')
+    p = subprocess.run([sys.executable, os.path.join(repo, 'scripts/make_option_enum.py'), out, os.path.join(repo, 'src/option.h'),
+                        os.path.join(repo, 'src/option_enum.cpp.in')], stdout=subprocess.PIPE, stderr=subprocess.PIPE, text=True)
+    if p.returncode != 0 or not os.path.exists(out):
+        raise slicer.SliceError('make_option_enum.py failed: ' + p.stderr[-400:])
+    return out
